@@ -334,7 +334,9 @@ def subprocess_lib(I):
             return code
         return None
 
-    def communicate(I_, self, timeout=None):
+    def communicate(I_, self, input=None, timeout=None):
+        # (the first positional parameter of Popen.communicate is `input`, not the timeout)
+        self.attrs["_g_wait_timeout"] = timeout          # ghost: the time limit this wait was given
         if timeout is not None and I_.ctx.choose(2) == 1:
             raise Raised(Obj(TimeoutExpired, {"args": ()}))
         if self.attrs["returncode"] is None:
@@ -443,6 +445,7 @@ def setup_local(extra_args=(), created_no_process=False):
         g = {"self": app, "state0": app.attrs["_state"], "runs0": 0, "evals0": app.attrs["_g_evals"],
              "cleanups0": app.attrs["_g_cleanups"], "cwd0": I.ghost["cwd"], "proc0": app.attrs["_process"]}
         I.ghost["entry"] = g
+        I.ghost["extra_args"] = args[1:]
         return {"args": args, "ghost": g}
     return setup
 
@@ -466,14 +469,27 @@ def ens_local_join(I, env):
             ("state", state_is(st, M["JOINED"])), ("cleanup_once", cl == env.vars["cleanups0"] + 1),
             ("evaluated_once", evals == env.vars["evals0"] + 1),
             ("exit_code_zero", natives.eq(I, p.attrs["returncode"], 0)),
-            ("not_killed", p.attrs["_g_kills"] == 0)]
+            ("not_killed", p.attrs["_g_kills"] == 0),
+            ("time_limit_handed_to_the_wait", time_limit_used(I, env))]
+
+
+def time_limit_used(I, env):
+    """join(timeout=t) waits for the program with that time limit (a wait without it never times out)"""
+    extra = I.ghost.get("extra_args") or [None]
+    t = extra[0]                                   # the `timeout` argument of this call
+    p = env.vars["self"].attrs["_process"]
+    if t is None:
+        return True
+    got = p.attrs.get("_g_wait_timeout")
+    return got is not None and natives.eq(I, got, t)
 
 
 def exc_local_join_failed(I, env):
     M = members(I)
     st, runs, evals, cl = cur(env)
     return [("call_was_allowed", call_was_allowed(I, env)),
-            ("state", state_is(st, M["CANCELLED"])), ("cleanup_once", cl == env.vars["cleanups0"] + 1)]
+            ("state", state_is(st, M["CANCELLED"])), ("cleanup_once", cl == env.vars["cleanups0"] + 1),
+            ("time_limit_handed_to_the_wait", time_limit_used(I, env))]
 
 
 def exc_local_join_timeout(I, env):
